@@ -5,6 +5,7 @@ import Driver.W2X
 import Driver.EncX
 import Driver.EncW
 import Driver.X2T
+import Driver.Spec
 open Driver
 
 def dispatch (line : String) : String :=
@@ -20,6 +21,8 @@ def dispatch (line : String) : String :=
   | "W2T" :: rest => w2tVerb rest
   | "T2T" :: rest => t2tVerb rest
   | "X2T" :: rest => x2tVerb rest
+  | "X2W" :: rest => x2wVerb rest
+  | "SPEC" :: rest => specVerb rest
   | _ => "BADVERB"
 
 partial def loop (h : IO.FS.Stream) (out : IO.FS.Stream) : IO Unit := do
